@@ -1316,6 +1316,8 @@ def x_text(rng, s, opts):
         cut = rng.randrange(1, len(s))
         a, b = x_text(rng, s[:cut], dict(opts, split=False, cdata=False)), x_text(rng, s[cut:], dict(opts, split=False, cdata=False))
         mid = rng.choice(["<!--c-->", "<?p d?>", "<!-- -->"])
+        if a.strip(" \t\r\n") == "" or b.strip(" \t\r\n") == "":
+            opts["split_ws"] = True       # one part is literal white space only: pugixml drops it (class J44w)
         return a + mid + b
     return t
 
@@ -1544,6 +1546,9 @@ def stage3_xml(vlib, impl, model, rng, tier, docs, known_ids, want, bump, stats)
         if agree and not same:
             if o["split"] and "J44" in known_ids:
                 explained = "J44"
+            elif o.get("split_ws") and "J44w" in known_ids:
+                # with the parts joined (GetText), what is left of J44: a part that is white space only is not in pugixml's tree
+                explained = "J44w"
         if explained:
             stats["known_class_cases"] += 1
             bump("known-class " + explained)
